@@ -81,6 +81,24 @@ type cpcCall struct {
 	to   common.Address
 	data []byte
 	desc string
+	// the bank write the call asks for, as an operation of the model with the outcome left open ("%v"); empty when
+	// the precompile would write nothing (zero amount, payer = payee)
+	op    string
+	addrs []common.Address
+}
+
+func (w *world) intendedSend(from, to common.Address, d int, amt *big.Int) (string, []common.Address) {
+	if amt.Sign() == 0 || from == to {
+		return "", nil
+	}
+	return fmt.Sprintf("XSend %s %s %d %s %%v", az(from), az(to), d, cz(amt)), []common.Address{from, to}
+}
+
+func (w *world) intendedBurn(from common.Address, d int, amt *big.Int) (string, []common.Address) {
+	if amt.Sign() == 0 {
+		return "", nil
+	}
+	return fmt.Sprintf("XBurn %s %d %s %%v", az(from), d, cz(amt)), []common.Address{from}
 }
 
 func (w *world) cpcCall(ctx sdk.Context, self common.Address) cpcCall {
@@ -94,7 +112,8 @@ func (w *world) cpcCall(ctx sdk.Context, self common.Address) cpcCall {
 		if w.r.Chance(30) {
 			to = other
 		}
-		return cpcCall{w.cpc.erc20[d], cdTransfer(to, amt), fmt.Sprintf("erc20[%d].transfer(%s,%s)", d, w.desc[to], amt)}
+		op, as := w.intendedSend(self, to, d, amt)
+		return cpcCall{w.cpc.erc20[d], cdTransfer(to, amt), fmt.Sprintf("erc20[%d].transfer(%s,%s)", d, w.desc[to], amt), op, as}
 	case x < 70:
 		// transferFrom: the owner has approved `self` (allowances are planted by the harness); drain or pay the hot address
 		from, to := hot, other
@@ -103,17 +122,21 @@ func (w *world) cpcCall(ctx sdk.Context, self common.Address) cpcCall {
 		}
 		amt = w.foreignAmount(ctx, from, d)
 		w.c.App.CPCKeeper.SetErc20CpcAllowance(ctx, from, self, new(big.Int).Lsh(Bi(1), 200))
-		return cpcCall{w.cpc.erc20[d], cdTransferFrom(from, to, amt), fmt.Sprintf("erc20[%d].transferFrom(%s,%s,%s)", d, w.desc[from], w.desc[to], amt)}
+		op, as := w.intendedSend(from, to, d, amt)
+		return cpcCall{w.cpc.erc20[d], cdTransferFrom(from, to, amt), fmt.Sprintf("erc20[%d].transferFrom(%s,%s,%s)", d, w.desc[from], w.desc[to], amt), op, as}
 	case x < 78:
-		return cpcCall{w.cpc.erc20[d], cdBurn(amt), fmt.Sprintf("erc20[%d].burn(%s)", d, amt)}
+		op, as := w.intendedBurn(self, d, amt)
+		return cpcCall{w.cpc.erc20[d], cdBurn(amt), fmt.Sprintf("erc20[%d].burn(%s)", d, amt), op, as}
 	case x < 86:
 		from := hot
 		amt = w.foreignAmount(ctx, from, d)
 		w.c.App.CPCKeeper.SetErc20CpcAllowance(ctx, from, self, new(big.Int).Lsh(Bi(1), 200))
-		return cpcCall{w.cpc.erc20[d], cdBurnFrom(from, amt), fmt.Sprintf("erc20[%d].burnFrom(%s,%s)", d, w.desc[from], amt)}
+		op, as := w.intendedBurn(from, d, amt)
+		return cpcCall{w.cpc.erc20[d], cdBurnFrom(from, amt), fmt.Sprintf("erc20[%d].burnFrom(%s,%s)", d, w.desc[from], amt), op, as}
 	default:
 		amt = w.foreignAmount(ctx, self, 0)
-		return cpcCall{w.cpc.staking, cdDelegate(w.cpc.validator, amt), fmt.Sprintf("staking.delegate(%s)", amt)}
+		return cpcCall{w.cpc.staking, cdDelegate(w.cpc.validator, amt), fmt.Sprintf("staking.delegate(%s)", amt),
+			fmt.Sprintf("XDelegate %s %s 0 %s %%v", az(self), az(w.cpc.pool), cz(amt)), []common.Address{self, w.cpc.pool}}
 	}
 }
 
@@ -243,6 +266,14 @@ func boundaryFamily(r *Rng) []common.Address {
 	y3[0] ^= 0xaa
 	y3[19] = 0x00
 	fam = append(fam, common.BytesToAddress(y3[:]))
+	if r.Chance(35) {
+		// leading zero bytes
+		y4 := base
+		for i := 0; i < 1+r.Intn(3); i++ {
+			y4[i] = 0
+		}
+		fam = append(fam, common.BytesToAddress(y4[:]))
+	}
 	shuffleAddrs(r, fam)
 	switch r.Intn(6) {
 	case 0:
@@ -301,6 +332,7 @@ const (
 	clsLast00
 	clsFirstFF
 	clsLastFFFF
+	clsFirst00
 )
 
 func (c addrClass) has(a common.Address) bool {
@@ -313,12 +345,14 @@ func (c addrClass) has(a common.Address) bool {
 		return a[0] == 0xff
 	case clsLastFFFF:
 		return a[19] == 0xff && a[18] == 0xff
+	case clsFirst00:
+		return a[0] == 0x00
 	}
 	return true
 }
 
 func (c addrClass) String() string {
-	return []string{"any", "last-ff", "last-00", "first-ff", "last-ffff"}[c]
+	return []string{"any", "last-ff", "last-00", "first-ff", "last-ffff", "first-00"}[c]
 }
 
 func randClass(r *Rng) addrClass {
@@ -329,8 +363,10 @@ func randClass(r *Rng) addrClass {
 		return clsLastFF
 	case x < 80:
 		return clsLast00
-	case x < 92:
+	case x < 88:
 		return clsFirstFF
+	case x < 94:
+		return clsFirst00
 	default:
 		return clsLastFFFF
 	}
